@@ -840,6 +840,35 @@ const swKinds = 20
 
 func init() {
 	runners["sw"] = func(a []string) string { return runners["parse"](a[:2]) }
+	// loc <hex frame>: frame locality on the implementation: the frame is parsed from two buffers that hold DIFFERENT bytes
+	// behind it (what a recycled pool buffer may hold); a conformant frame must give the same message and the same
+	// re-encoding both times
+	runners["loc"] = func(a []string) string {
+		fr := unhex(a[0])
+		one := func(fill byte) string {
+			back := make([]byte, len(fr)+96)
+			copy(back, fr)
+			for i := len(fr); i < len(back); i++ {
+				back[i] = fill + byte(i%7)
+			}
+			return guard(func() string {
+				outs := funcReg["Parse"].Call([]reflect.Value{reflect.ValueOf(back[:len(fr)])})
+				if !outs[1].IsNil() {
+					return "err"
+				}
+				if outs[0].IsNil() || (outs[0].Elem().Kind() == reflect.Ptr && outs[0].Elem().IsNil()) {
+					return "nil"
+				}
+				m := outs[0].Elem()
+				b, _ := marshalOf(m)
+				return dumpV(m) + " " + hx(b)
+			})
+		}
+		if one(0x00) == one(0xf1) {
+			return "local"
+		}
+		return "nonlocal"
+	}
 	ofGens = append(ofGens, func(c *Ctx) {
 		g := &swGen{r: c.rng}
 		per := 12
@@ -862,6 +891,9 @@ func init() {
 					back = append(back, 0xe0+byte(j))
 				}
 				c.run("sw", hx(back), len(fr), exp)
+				if i%2 == 0 {
+					c.run("loc", hx(fr))
+				}
 				// … and the parsed message must round-trip like any value the API built (C05)
 				// and its re-encoding must be the frame itself; exceptions: echo with payload (dropped, known finding) and
 				// priority-tagged frames (tag lost on re-encoding, known finding) are left to their own oracles
